@@ -4,9 +4,11 @@
               from a filter against the id set of the right registry, iterating all holders
   REF-AFTER   every deletion from _lanelets/_traffic_signs/_traffic_lights is followed, on the path
               where it happened, by the matching cleanup call
-  REF-CUT     create_from_lanelet_network filters every lanelet-ref field of copied intersections
+  REF-CUT     create_from_lanelet_network, evaluated (c10ev.cut_out_rules): copies of exactly the selected elements,
+              nothing cut away is referred to, source untouched
               through the kept-id set, copies only signs/lights of kept lanelets, cleans lanelet refs
-  REF-HANG    remove_hanging_lanelet_members removes exactly (referenced by removed) - (referenced by remaining)
+  REF-HANG    remove_hanging_lanelet_members, evaluated (c10ev.hanging_rules): exactly (referenced by removed) -
+              (referenced by remaining) goes
 """
 import ast
 
